@@ -18,7 +18,7 @@ func init() {
 		Explain: "Decides on every path of the mocks package: the mock async producer gives each input message at most one outcome (one send on Successes/Errors per iteration) and the sync producer returns exactly the expectation's result or the partitioner/checker error (C20.one-outcome); expectations are consumed from the head, one per message, len(msgs) for SendMessages (C20.fifo); the partition is the configured partitioner's choice over the configured partition count and is what is stored in / returned for the message (C20.partition); " +
 			"lastOffset is incremented exactly once per success and consumer offsets come from the atomic high-water-mark counter (C20.offsets); every deviation branch reports to the ErrorReporter exactly once and the set of reporting sites is the tabled one (C20.report); expectation state is accessed under the mock's mutex (C20.lock). " +
 			"NOT covered: the behaviour of user-supplied checkers and partitioners, channel capacity effects.",
-		Rules: []func(*Ctx){c20OneOutcome, c20Fifo, c20Partition, c20Offsets, c20Report, c20Lock},
+		Rules: []func(*Ctx){c20OneOutcome, c20Fifo, c20Partition, c20Offsets, c20Report, c20Lock, c20Atomic},
 	})
 }
 
@@ -309,4 +309,76 @@ func c20Lock(c *Ctx) {
 		{"Consumer.partitionConsumers", "Consumer.l", "expected partition consumers"},
 		{"Consumer.metadata", "Consumer.l", "topic metadata"},
 	}, 7)
+}
+
+// C20.atomic: taking the next expectation(s) and handing out the offset(s) that go with them is one critical section.
+func c20Atomic(c *Ctx) {
+	p := c.P
+	rule := "C20.atomic"
+	c.Doc(rule, "mock producers: in every function that takes expectations off the script (a store to X.expectations) and assigns offsets (a store to X.lastOffset), each offset assignment happens under exactly one acquisition of X.l, the same one under which the expectations were taken, and that acquisition dominates both — the mutex is not released in between, so a concurrent sender cannot take a later expectation and an earlier offset")
+	c.Floor(rule, 3)
+	n := 0
+	for _, fn := range p.Fns {
+		if rootFn(fn).Pkg != p.Mocks || fn.Blocks == nil {
+			continue
+		}
+		var pops, offs []*ssa.Store
+		for _, b := range fn.Blocks {
+			for _, in := range b.Instrs {
+				st, ok := in.(*ssa.Store)
+				if !ok {
+					continue
+				}
+				owner, name, _, ok := ownerField(st.Addr)
+				if !ok || (owner != "SyncProducer" && owner != "AsyncProducer") {
+					continue
+				}
+				switch name {
+				case "expectations":
+					// a pop: the new value is a slice of the old one
+					if _, isSlice := strip(st.Val).(*ssa.Slice); isSlice {
+						pops = append(pops, st)
+					}
+				case "lastOffset":
+					offs = append(offs, st)
+				}
+			}
+		}
+		if len(pops) == 0 || len(offs) == 0 {
+			continue
+		}
+		at := acquisitionsAt(fn)
+		for _, o := range offs {
+			n++
+			_, _, base, _ := ownerField(o.Addr)
+			k := lockKey{base, "l"}
+			cur := at[o][k]
+			bad := ""
+			switch {
+			case len(cur) == 0:
+				bad = "the offset is assigned without holding the mock's mutex"
+			case len(cur) > 1:
+				bad = "the offset is assigned under a different acquisition of the mock's mutex than the one under which the expectation was taken (the mutex is released and re-taken in between)"
+			default:
+				var a ssa.Instruction
+				for x := range cur {
+					a = x
+				}
+				okPop := false
+				for _, pp := range pops {
+					pc := at[pp][k]
+					if len(pc) == 1 && pc[a] && (pp.Block().Dominates(o.Block())) {
+						okPop = true
+					}
+				}
+				if !okPop {
+					bad = "no removal of expectations under the same acquisition of the mutex precedes the offset assignment"
+				}
+			}
+			c.Check(bad == "", rule, fn, "offset-with-its-expectation", o, "expectation taken and offset assigned in one critical section", bad+": with concurrent senders a message gets the outcome of one expectation and the offset belonging to another (offsets not increasing in expectation order, batch offsets not consecutive)", nil)
+		}
+	}
+	if n < 3 {
+		c.Unresolved(rule, fmt.Sprintf("offset assignments in functions that also take expectations (found %d)", n))
+	}
 }
